@@ -1,6 +1,7 @@
 package main
 
 import (
+	"encoding/json"
 	"errors"
 	"fmt"
 	"math/big"
@@ -336,6 +337,39 @@ func genC06(out *Out, r *Rng, tier string, n int, shard int) {
 			why = append(why, fmt.Sprintf("asking for a proof type the credential does not carry gives %v", err))
 		}
 		out.Emit(Case{Op: "none", In: J{"dispatch": "proof-not-found"}, Impl: J{"err": "proof_not_found"}, Prop: propOf(why), Tags: []string{"dispatch"}, NT: true})
+		// a proof kind the credential does carry (decoded into its own Go type) but that verification does not support
+		{
+			var w2 []string
+			sm, _ := s.is.IssueSMT(s.claim)
+			if sm != nil {
+				b, _ := json.Marshal(sm)
+				var o map[string]any
+				_ = json.Unmarshal(b, &o)
+				o["type"] = "Iden3SparseMerkleProof"
+				b2, _ := json.Marshal(o)
+				var third verifiable.Iden3SparseMerkleProof
+				if err := json.Unmarshal(b2, &third); err != nil {
+					w2 = append(w2, "a well-formed Iden3SparseMerkleProof does not decode: "+err.Error())
+				} else {
+					vc3, _ := s.c.W3C()
+					vc3.Proof = verifiable.CredentialProofs{&third}
+					c3 := 0
+					if err := runVerify(vc3, verifiable.Iden3SparseMerkleProofType, resolverCfg{mode: "published"}.resolver(&c3), nil, s.c.loader()); !errors.Is(err, verifiable.ErrProofNotSupported) {
+						w2 = append(w2, fmt.Sprintf("verifying a proof of the unsupported kind Iden3SparseMerkleProof gives %v instead of 'proof not supported'", err))
+					}
+				}
+				// each typed proof refuses JSON that names another type
+				for _, tgt := range []any{&verifiable.BJJSignatureProof2021{}, &verifiable.Iden3SparseMerkleTreeProof{}} {
+					if err := json.Unmarshal(b2, tgt); err == nil {
+						w2 = append(w2, fmt.Sprintf("%T decodes JSON of type Iden3SparseMerkleProof", tgt))
+					}
+				}
+				if err := json.Unmarshal(b, &verifiable.Iden3SparseMerkleProof{}); err == nil {
+					w2 = append(w2, "Iden3SparseMerkleProof decodes JSON of type Iden3SparseMerkleTreeProof")
+				}
+			}
+			out.Emit(Case{Op: "none", In: J{"dispatch": "proof-not-supported"}, Impl: J{"err": "proof_not_supported"}, Prop: propOf(w2), Tags: []string{"dispatch"}, NT: true})
+		}
 	}
 }
 
